@@ -311,6 +311,11 @@ def check(repo: Repo, run: Run) -> None:
                        "so identifiers are looked up inside it first (`-d jq` on a list document is a TypeError that ends the stream; a document with a key of that name prints the wrong value)", mn.loc(go))
             else:
                 run.ob("C20.S6", "get_options|default-package", True, "the default package is installed only when neither --json-package nor --json-document is given", mn.loc(go))
+    # S7: a line that is not one whole JSON document is an error for that line (status 3), not a value: the decoder
+    # process_json_doc() uses must decode the complete text (rule shared with C15.J3)
+    from .c15 import check_decoder
+
+    check_decoder(repo, run, "C20.S7")
     # S4 -----------------------------------------------------------------
     disp = [n for n in ast.walk(main) if isinstance(n, ast.FunctionDef) and n.name == "output_display"]
     enc = [d for d in disp if "json.dumps(result_value, cls=CELJSONEncoder)" in ast.unparse(d)]
